@@ -148,10 +148,17 @@ def run(ctx):
     # must not change during a read-only session
     nh = 400 if thorough else 60
     hists = ctx.run_impl("nixrun.py", {"seed": ctx.seed, "n": nh, "len": 30 if thorough else 24,
-                                       "profile": {"readonly_reopen": True, "weights": {"reopen": 2.5}}})
+                                       "profile": {"readonly_reopen": True, "accessor_sweep": True, "weights": {"reopen": 2.5}}})
     ro_ops = 0
     ro_refused = 0
+    swept = 0
     for k, h in enumerate(hists):
+        for sw in h.get("ro_sweep") or []:
+            swept += sw["accessors"]
+            if sw["ndiffs"]:
+                failures.append(("a read accessor answers differently in a read-only session than in a writable session on the same bytes",
+                                 {"history": h["ops"][:sw["step"]], "accessor": sw["diffs"][0][0]},
+                                 {"outcome": "differs", "writable": sw["diffs"][0][1], "read_only": sw["diffs"][0][2], "count": sw["ndiffs"]}))
         readonly = False
         for op, res in zip(h["ops"], h["results"]):
             if op[0] == "reopen":
@@ -184,12 +191,16 @@ def run(ctx):
     ctx.coverage.update({
         "evaluations": len(cases) + 3 + len(hists),
         "readonly_histories": len(hists), "ops_in_readonly_sessions": ro_ops, "of_which_refused": ro_refused,
+        "accessors_compared_ro_vs_rw": swept,
         "distinct_nontrivial": len(set(repr(c) for c in cases)),
         "rule": "crafted files (a real NIX file with a block, an array and a section whose header attributes are rewritten "
                 "with h5py): version triples {0..3}^3 and the 27 neighbours of the library version x 3 modes x id "
                 "(valid/invalid/missing), other/missing format tags, malformed/missing version attributes; plus the three modes on "
                 "a missing path. quick = all cases at versions 1.1.0, 1.2.0 and the library's + 500 sampled; thorough = the "
-                "whole grid. Every case is distinct and non-trivial (a header plus a mode).",
+                "whole grid. Every case is distinct and non-trivial (a header plus a mode). Read-only sessions: random histories with "
+                "read-only reopens; at each of them every public property and argument-free reader method (reflection over the "
+                "classes) of every entity, dimension, feature and property is evaluated in the read-only session and in a writable "
+                "session on a byte-identical copy, and the answers must be equal (test-level extension of the op alphabet).",
         "exhaustive": bool(thorough),
         "disagreements": len(disagreements), "spec_failures": len(failures),
         "samples": [inputs[0], inputs[len(inputs) // 2], inputs[-1]],
